@@ -33,6 +33,52 @@ def _replay(a, c):
         a.candidates.append(c)
 
 
+def _replay_vars(a, c):
+    if c:
+        c["replay"] = replay_queries(a)
+        if not c["replay"].get("reproduced"):
+            c["replay"] = replay_literal_variables(a)
+        c["reproduced"] = c["replay"].get("reproduced", False)
+        a.candidates.append(c)
+
+
+def replay_literal_variables(a):
+    """a literal written in place and the same literal bound with `let` (file, rule and block scope) and used as a bare
+    %v must give the same status (the reference is the in-place form)"""
+    exe = a.cli()
+    if not exe:
+        return {"reproduced": False, "note": "native build failed"}
+    data = '{"Resources": {"a": {"Type": "S3"}, "b": {"Type": "EC2"}},\n "n": 5, "w": "ell"}\n'
+    pairs = [("some Resources.*.Type == \"S3\"", "let v = \"S3\"", "some Resources.*.Type == %v"),
+             ("Resources.*.Type == \"S3\"", "let v = \"S3\"", "Resources.*.Type == %v"),
+             ("Resources.a.Type == [\"S3\"]", "let v = [\"S3\"]", "Resources.a.Type == %v"),
+             ("Resources.*.Type in \"S3,EC2\"", "let v = \"S3,EC2\"", "Resources.*.Type in %v"),
+             ("Resources.*.Type in [\"S3\", \"EC2\"]", "let v = [\"S3\", \"EC2\"]", "Resources.*.Type in %v"),
+             ("n == 5", "let v = 5", "n == %v"), ("n >= 6", "let v = 6", "n >= %v"), ("n in [4, 5]", "let v = [4, 5]", "n in %v"),
+             ("Resources.*.Type != \"S3\"", "let v = \"S3\"", "Resources.*.Type != %v")]
+    out, tried = [], []
+
+    def status(rules):
+        rc, rep, err = a.run_structured(exe, rules, [data])
+        if not (rep and isinstance(rep, list) and rep):
+            return None
+        r = rep[0]
+        return "PASS" if "t" in r.get("compliant", []) else ("SKIP" if "t" in r.get("not_applicable", []) else "FAIL")
+    for inline, let_, via in pairs:
+        ref = status(f"rule t {{\n  {inline}\n}}\n")
+        forms = {"file scope": f"{let_}\nrule t {{\n  {via}\n}}\n", "rule scope": f"rule t {{\n  {let_}\n  {via}\n}}\n"}
+        for where, text in forms.items():
+            got = status(text)
+            tried.append({"clause": inline, "scope": where, "inline": ref, "via_variable": got})
+            if ref is None or got is None:
+                continue
+            if ref != got:
+                out.append({"in_place": inline, "scope": where, "rules_file": text, "status_in_place": ref, "status_via_variable": got})
+    unran = [t for t in tried if t["inline"] is None or t["via_variable"] is None]
+    return {"reproduced": bool(out), "mismatches": out[:4], "tried": len(tried), "data": data,
+            "note": f"{len(unran)} forms did not load: {unran[:2]}" if unran else None}
+
+
 def q_accumulate(a):
     ex = a.exec(QCTX + "accumulate", common_models(), log=("extend", "push"), unroll=2, max_paths=20000)
     a.fns.append("rules::eval_context::accumulate")
@@ -649,7 +695,7 @@ def q_variable_head(a):
             else:
                 parts.append(f"(=> (= {tag} 1) (or {unres} (= {r[2]} 1) true))")
         bad.append(f"(and {pc_term(p.pc)} (> {qlen} 0) (not {'false' if probs else '(and ' + ' '.join(parts) + ')'}))")
-    _replay(a, a.discharge("query/variable-head", ex, bad,
+    _replay_vars(a, a.discharge("query/variable-head", ex, bad,
                            f"query starting with `%var`, variable resolving to <= 2 values ({nval} value visits): the variable is resolved "
                            "once through the resolver; an unresolved entry is passed on as it is and never traversed; every resolved / "
                            "literal value is continued separately - same query, position 1 (or 2 past an inserted `[*]`), that value, "
